@@ -585,6 +585,45 @@ fn ident_random(rng: &mut Rng) -> String {
     s
 }
 
+/// every `IDENT_WORDS` entry cut at every separator, with skipped Markdown markup at the cut
+pub fn split_identifiers() -> Vec<String> {
+    let mut v = vec![];
+    for w in IDENT_WORDS {
+        let cs: Vec<char> = w.chars().collect();
+        for (i, c) in cs.iter().enumerate() {
+            if *c != '_' && *c != '-' {
+                continue;
+            }
+            let l: String = cs[..i].iter().collect();
+            let r: String = cs[i + 1..].iter().collect();
+            if l.is_empty() || r.is_empty() {
+                continue;
+            }
+            let sep = *c;
+            for t in [
+                format!("[{l}](http://example.com \"the title\"){sep}{r}"),
+                format!("[{l}](url){sep}{r}"),
+                format!("{l}{sep}[{r}](url \"a title\")"),
+                format!("[{l}{sep}](<a b> 'some words'){r}"),
+                format!("![{l}](img.png \"picture of it\"){sep}{r}"),
+                format!("**{l}**{sep}{r}"),
+                format!("{l}{sep}**{r}**"),
+                format!("*{l}{sep}*{r}"),
+                format!("~~{l}~~{sep}{r}"),
+                format!("[[some page|{l}]]{sep}{r}"),
+                format!("{l}<!-- a comment -->{sep}{r}"),
+                format!("{l}<b>{sep}</b>{r}"),
+                format!("[{l}][ref]{sep}{r}\n\n[ref]: http://example.com \"ref title\""),
+                format!("{l}\\\n{sep}{r}"),
+                format!("Use [{l}](url \"x y\"){sep}{r} here, and {w} there."),
+            ] {
+                v.push(t);
+            }
+        }
+    }
+    v
+}
+
 pub const FOREIGN: &[&str] = &[
     "En la mañana, como a dish de los huevos, un poquito of tocino, y a lot of leche.",
     "No estoy of acuerdo con the politics de Los estados unidos ahora; pienso que we need mas diversidad in el gobierno.",
@@ -735,6 +774,15 @@ pub fn run_into(sess: &mut Session, ctx: &Ctx, rng: &mut Rng) {
             jobs.push(Job::Collapse(k, format!("**{}** `{}` {}-{}_{}", w, w, w, w, w)));
         }
     }
+    //    (c') identifiers whose tokens are NOT contiguous in the source: Markdown markup that the
+    //         parser skips (link destination and title, emphasis markers, wikilink target, inline
+    //         HTML) sits between the words and the separator, so the source stretch is not the
+    //         dictionary's identifier although the concatenated token texts are
+    for t in split_identifiers() {
+        for k in [InnerP::Plain, InnerP::Md] {
+            jobs.push(Job::Collapse(k, t.clone()));
+        }
+    }
     for f in FOREIGN {
         for k in [InnerP::Plain, InnerP::Md] {
             jobs.push(Job::Isolate(k, f.to_string()));
@@ -775,9 +823,13 @@ pub fn run_into(sess: &mut Session, ctx: &Ctx, rng: &mut Rng) {
         jobs.push(Job::Md("wikiclean", i % 2 == 1, t));
     }
     let n_wrap = if thorough { 30000 } else { 4000 };
+    let sp = split_identifiers();
     for i in 0..n_wrap {
-        let t = ident_random(rng);
-        jobs.push(Job::Collapse(if i % 3 == 0 { InnerP::Md } else { InnerP::Plain }, t));
+        let mut t = ident_random(rng);
+        if i % 5 == 0 {
+            t = format!("{} {} {}", t, rng.pick(&sp), ident_random(rng));
+        }
+        jobs.push(Job::Collapse(if i % 3 == 0 || i % 5 == 0 { InnerP::Md } else { InnerP::Plain }, t));
         let m = mixed_random(rng);
         jobs.push(Job::Isolate(if i % 3 == 0 { InnerP::Md } else { InnerP::Plain }, m));
         if i % 4 == 0 {
